@@ -74,6 +74,7 @@ func main() {
 
 	if f.Replay != "" {
 		rn.replay()
+		rn.modelNotes()
 		res.Write(f.Out)
 		return
 	}
@@ -99,14 +100,20 @@ func main() {
 		rn.histPhase()
 		rn.scenarioPhase([]string{"quietread-write", "quietread-create"})
 	}
-	if rn.m != nil {
-		for _, to := range rn.m.timeouts {
-			res.Notes = append(res.Notes, "model request hit its deadline and was abandoned (model restarted): "+to)
-		}
-	}
+	rn.modelNotes()
 	res.Notes = append(res.Notes, fmt.Sprintf("runner phases took %.1fs", time.Since(start).Seconds()),
 		"short writes cannot be injected by strace; they are produced for real with RLIMIT_FSIZE (Transform's tail write, Write) and otherwise covered by the Coq theorems")
 	res.Write(f.Out)
+}
+
+// modelNotes records model requests that were abandoned at their deadline.
+func (rn *runner) modelNotes() {
+	if rn.m == nil {
+		return
+	}
+	for _, to := range rn.m.timeouts {
+		rn.res.Notes = append(rn.res.Notes, "model request hit its deadline and was abandoned (model restarted): "+to)
+	}
 }
 
 // ---------------------------------------------------------------- (a) protocol
